@@ -395,9 +395,10 @@ theorem scriptGo_sim {F : Prop} {p : Nat} (st : SS) (t u : Tokenizer) (c : Core 
       | have rb := readByte_sim c e
       | have rb := readByte_sim c (e.back (scriptGo_err _ _))
       | have rb := readByte_sim c (e.back (fun h => scriptGo_err _ _ (by simp only [unread_err]; exact h)))
-    rw [scriptGo]
+    conv => arg 3; rw [scriptGo]
     sif [rb.1.err, rb.2, *]
     first
+      | done
       | exact rb.1
       | (apply_assumption
          · first | exact rb.1 | exact unread_sim 1 rb.1 (readByte_pos (by assumption))
@@ -408,22 +409,6 @@ theorem scriptGo_sim {F : Prop} {p : Nat} (st : SS) (t u : Tokenizer) (c : Core 
            | omega
          · first | (rw [(readByte_adv ok).rawTag]; exact hs) | (rw [(read_unread_adv ok (by assumption)).rawTag]; exact hs)
          · exact e))
-  case case1 =>
-    have rb := readByte_sim c e
-    rw [scriptGo]
-    sif [rb.1.err, rb.2, *]
-    exact rb.1
-  case case7 =>
-    have rb := readByte_sim c (e.back (fun h => scriptGo_err _ _ (by simp only [unread_err]; exact h)))
-    rw [scriptGo]
-    sif [rb.1.err, rb.2, *]
-    apply_assumption
-    · exact unread_sim 1 rb.1 (readByte_pos (by assumption))
-    · exact (read_unread_adv ok (by assumption)).ok
-    · simp only [SS.need] at *
-      omega
-    · rw [(read_unread_adv ok (by assumption)).rawTag]; exact hs
-    · exact e
   all_goals trace_state
   all_goals sorry
 
